@@ -481,11 +481,15 @@ def diff_obs(a, b):
 
 def program_inputs(rng, tier):
   hs = []
-  # exhaustive small: every hierarchy of 3 (thorough: 4) classes after object with <= 3 bases (with repetition)
-  for h, _ in (enum_hiers(4, 3) if tier == "thorough" else enum_hiers(3, 3)):
+  # exhaustive small: every hierarchy of 3 classes after object with <= 3 bases (with repetition); thorough
+  # adds 4 classes with <= 2 bases
+  for h, _ in enum_hiers(3, 3):
     hs.append(h)
+  if tier == "thorough":
+    for h, _ in enum_hiers(4, 2):
+      hs.append(h)
   n_ex = len(hs)
-  nrand = 2500 if tier == "thorough" else 300
+  nrand = 1500 if tier == "thorough" else 250
   for _ in range(nrand):
     h, _ = random_hier(rng, pdup=0.08)
     hs.append(h)
@@ -670,14 +674,22 @@ def witnesses(res):
   known, fixed = common.known_findings("C10")
   replayed = []
   for e in known:
-    py_lines, c_lines, msgs = replay_program(e["witness"]["program"])
+    try:
+      py_lines, c_lines, msgs = replay_program(e["witness"]["program"])
+    except Exception as ex:  # pylint: disable=broad-except
+      # the analysis itself crashed: not the known finding; K reports crashes as disagreements
+      replayed.append({"id": e["id"], "exception": "%s: %s" % (type(ex).__name__, str(ex)[:200])})
+      continue
     still = py_lines != c_lines
     replayed.append({"id": e["id"], "pytype_mro_error_lines": py_lines, "cpython_typeerror_lines": c_lines,
                      "cpython_messages": msgs, "still_fails": still})
     if still:
       res.known_lines.append(e["what"])
   for e in fixed:
-    py_lines, c_lines, msgs = replay_program(e["witness"]["program"])
+    try:
+      py_lines, c_lines, msgs = replay_program(e["witness"]["program"])
+    except Exception as ex:  # pylint: disable=broad-except
+      py_lines, c_lines, msgs = ["crash: %r" % ex], [], []
     replayed.append({"id": e["id"], "fixed": True, "pytype_mro_error_lines": py_lines,
                      "cpython_typeerror_lines": c_lines})
     if py_lines != c_lines:
@@ -790,6 +802,14 @@ def search(res, rng, disagreements, pfail):
   common.load_pytype()
   found = []
   cands = []
+  # a crash of the analysis on a plain class hierarchy is itself a failing input: find the smallest
+  for src in ["class A:\n  x = 1\nr = A.x\n", "class A: pass\nclass B(A): pass\nclass C(B, A):\n  x = 1\nr = C().x\n"]:
+    try:
+      run_pytype(src)
+    except Exception as e:  # pylint: disable=broad-except
+      found.append({"kind": "pytype crashes on a valid program (CPython runs it)", "program": src,
+                    "exception": "%s: %s" % (type(e).__name__, str(e)[:300])})
+      return found
   for d in disagreements:
     if "hier" in d and "defs" in d:
       cands.append((d["hier"], d["defs"], d["nattrs"]))
@@ -827,19 +847,27 @@ def search(res, rng, disagreements, pfail):
       failing.append((len(bases), bases, defs, nattrs))
   failing.sort(key=lambda x: x[0])
   for _, bases, defs, nattrs in failing[:2]:
-    def fails(b, d, nattrs=nattrs):
-      items1 = [("x", b, d, nattrs)]
+    def fails(b, d, n=nattrs):
+      items1 = [("x", b, d, n)]
       src, lines = build_module(items1)
       types, errs = run_pytype(src)
       o, _ = observe_pytype(items1, src, lines, types, errs)
-      return bool(oracle_diff(b, o["x"], observe_cpython("x", b, d, nattrs)))
+      return bool(oracle_diff(b, o["x"], observe_cpython("x", b, d, n)))
     try:
       sb, sd = shrink_hier(bases, defs, nattrs, fails)
+      for n in range(nattrs):  # fewest attribute names (hence reads) that still show the failure
+        if all(a < n for d in sd for a in d) and fails(sb, sd, n):
+          nattrs = n
+          break
     except Exception:  # pylint: disable=broad-except
       sb, sd = bases, defs
     items1 = [("x", sb, sd, nattrs)]
     src, lines = build_module(items1)
-    types, errs = run_pytype(src)
+    try:
+      types, errs = run_pytype(src)
+    except Exception as e:  # pylint: disable=broad-except
+      found.append({"kind": "pytype crashed", "program": src, "exception": repr(e)[:300]})
+      continue
     o, _ = observe_pytype(items1, src, lines, types, errs)
     co = observe_cpython("x", sb, sd, nattrs)
     found.append({"kind": "program: pytype vs CPython", "hier": sb, "defs": sd, "program": src,
